@@ -103,9 +103,16 @@ impl TcpStream {
         // ephemeral port) is owned by this future: release it when the
         // connect is refused and when the future is dropped while pending
         // (timeout, select!, host crash).
-        let mut pending = PendingConnect { pair, armed: true };
+        let mut pending = PendingConnect {
+            pair,
+            armed: true,
+            abandoned: true,
+        };
 
-        syn_ack.await.map_err(|_| {
+        let res = syn_ack.await;
+        // Past this point the future was not dropped while pending.
+        pending.abandoned = false;
+        res.map_err(|_| {
             io::Error::new(io::ErrorKind::ConnectionRefused, pair.remote.to_string())
         })?;
 
@@ -211,6 +218,9 @@ impl TcpStream {
 struct PendingConnect {
     pair: SocketPair,
     armed: bool,
+    /// The future is being dropped while the handshake is still pending
+    /// (as opposed to a refused connect).
+    abandoned: bool,
 }
 
 impl Drop for PendingConnect {
@@ -220,6 +230,19 @@ impl Drop for PendingConnect {
         }
         World::current_if_set(|world| {
             if world.current.is_some() {
+                if self.abandoned {
+                    // The listener may already have accepted the request:
+                    // reset that stream so its owner is not left waiting on
+                    // a connection nobody holds the other end of. Without an
+                    // accepted stream the RST is ignored by the peer.
+                    let pair = self.pair;
+                    let message = Protocol::Tcp(Segment::Rst);
+                    if is_same(pair.local, pair.remote) {
+                        send_loopback(pair.local, pair.remote, message);
+                    } else {
+                        let _ = world.send_message(pair.local, pair.remote, message);
+                    }
+                }
                 world.current_host_mut().tcp.reset_stream(self.pair);
             }
         })
